@@ -154,6 +154,11 @@ func Note(s string) {
 	}
 }
 
+// Persistent runs f as part of the initial state: under symgo its heap writes are kept
+// across paths (like package initialisation) and it runs once per worker; f must not touch
+// symbolic values. Natively it just calls f (guard with sync.Once yourself).
+func Persistent(f func()) { f() }
+
 // KnownFinding marks the inputs that match a finding listed in /verif/known_findings.json.
 func KnownFinding(id string, pred bool) {}
 
